@@ -433,6 +433,7 @@ func nearValid(r *Rng, text string, ninstr int, length int) (string, string) {
 }
 
 func runC06(c *Ctx) {
+	defer withDisturb(c)()
 	runPinned(c, "C06")
 	n := int64(240000)
 	if c.Thorough() {
